@@ -5,7 +5,7 @@
 From Coq Require Import NArith List Bool Lia ZArith.
 From Coq Require Import ZifyN ZifyBool ZifyNat.
 From DV Require Import Base.Outcome Base.Bytes Base.Names Base.PName C02.Gen C02.Model
-  C02.ProofsBasic C02.ProofsRun C02.ProofsName C02.ProofsComp C02.ProofsStatic C02.ProofsHash C02.ProofsTop
+  C02.ProofsBasic C02.ProofsClone C02.ProofsRun C02.ProofsName C02.ProofsComp C02.ProofsStatic C02.ProofsHash C02.ProofsTop
   C02.ProofsLayout C02.ProofsRead C02.ProofsWrite C02.ProofsBuild C02.ProofsTotal.
 Import ListNotations.
 Local Open Scope N_scope.
@@ -36,8 +36,8 @@ Definition wf_xop (x : xop) : Prop :=
 Lemma Forall_repeat {A} (P : A -> Prop) x n : P x -> Forall P (repeat x n).
 Proof. intros H. induction n; cbn [repeat]; constructor; auto. Qed.
 
-Lemma wf_simple o : wf_op o -> (match o with OpR _ => False | _ => True end) -> wf_op_sized o.
-Proof. intros H K. split; [exact H|]. destruct o; auto. contradiction. Qed.
+Lemma wf_simple o : wf_op o -> (match o with OpR _ | OpOpt _ _ => False | _ => True end) -> wf_op_sized o.
+Proof. intros H K. split; [exact H|]. destruct o; auto; contradiction. Qed.
 
 Lemma conv_ops_wf sec k : Forall wf_op_sized (conv_ops sec k).
 Proof. unfold conv_ops. destruct (sec <=? k); apply Forall_repeat; apply wf_simple; exact I. Qed.
